@@ -82,7 +82,7 @@ def normalise(trace, kind):
     return ops
 
 
-def task_source(kind):
+def task_source(kind, flag=False):
     ret = {'json': 'dict', 'numpy': 'np.ndarray', 'pandas': 'pd.DataFrame', 'generated': 'Generator',
            'generated_lazy': 'GeneratedDataLazy', 'listnumpy': 'list', 'dir': 'DirData', 'continues': 'ContinuesData'}[kind]
     body = {
@@ -96,6 +96,8 @@ def task_source(kind):
         'continues': "d = self.get_data_object()\n        (d.dir / 'part1').write_text('P1-' + str(_S['run']))\n        if _S['fault'] == 'raise_midway':\n            raise RuntimeError('boom midway')\n        (d.dir / 'part2').write_text('P2')\n        d.finished()\n        return d",
     }[kind]
     extra = '        data_class = ListOfNumpyData\n' if kind == 'listnumpy' else ''
+    if flag:        # "accept whatever run returns": allowed for results kept in memory only, refused for persisting ones
+        extra += '        ignore_return_type_mismatch = True\n'
     return ('from typing import Generator\nimport numpy as np\nimport pandas as pd\nfrom taskchain import Task\n'
             'from taskchain.data import DirData, ContinuesData, ListOfNumpyData, GeneratedDataLazy\n'
             'class Victim(Task):\n    class Meta:\n        task_group = "c05"\n' + extra +
@@ -111,7 +113,7 @@ def make_module(kind, state):
     m = types.ModuleType(name)
     m.__dict__['_S'] = state
     sys.modules[name] = m
-    exec(compile(task_source(kind), name, 'exec'), m.__dict__)
+    exec(compile(task_source(kind, bool(state.get('flag'))), name, 'exec'), m.__dict__)
     m.Victim.__module__ = name
     return m
 
@@ -154,6 +156,9 @@ class Faults(Suite):
         # functions take for line ends (U+2028, U+2029, U+0085, VT, FF, FS..RS): complete, or not there
         out += [dict(kind=k, forced=f, fault='crash', leftover='none', big=True) for k in ('listnumpy', 'generated') for f in (False, True)]
         out += [dict(kind=k, forced=False, fault=ft, leftover='none', special=True) for k in ('generated', 'generated_lazy') for ft in ('crash', 'raise')]
+        # a task that says `ignore_return_type_mismatch` and persists its result: a value of another type is refused, nothing is stored
+        out += [dict(kind=k, forced=f, fault=ft, flag=True) for k in ('json', 'numpy', 'pandas') for f in (False, True)
+                for ft in ('mistyped', 'mistyped_iterable') if not (ft == 'mistyped_iterable' and k == 'json')]
         return out
 
     def run_impl(self, case):
@@ -162,7 +167,7 @@ class Faults(Suite):
         old = os.getcwd()
         try:
             os.chdir(tmp)
-            state = dict(run=0, runs=0, fault=None, bad=None, big=case.get('big'), special=case.get('special'))
+            state = dict(run=0, runs=0, fault=None, bad=None, big=case.get('big'), special=case.get('special'), flag=case.get('flag'))
             m = make_module(kind, state)
 
             def first():
@@ -244,7 +249,15 @@ class Faults(Suite):
                             same[tag] = dict(value=describe_result(kind, task.value))
                         except Exception as e:
                             same[tag] = dict(error=f'{type(e).__name__}: {e}'[:160])
-                return dict(res, snaps=snaps, after_fault=after, **same)
+                # later looks at the task (a new task object asks has_data, loads the value) leave what was set aside alone
+                fresh = the_chain(m, 'data')['c05:victim']
+                _ = fresh.has_data
+                try:
+                    _ = fresh.value
+                except Exception:
+                    pass
+                after_look = sorted(p.name for p in t.path.iterdir()) if t.path.exists() else []
+                return dict(res, snaps=snaps, after_fault=after, after_look=after_look, **same)
             b = in_child(faulty)
             if 'child_error' in b:
                 return dict(setup_error=b['child_error'])
@@ -324,6 +337,10 @@ class Faults(Suite):
                 if r.get('value') not in complete:
                     return f'{where0}: after the fault is gone, {tag.replace("_", " ")} yields {json.dumps(r.get("value"))[:160]}, not a complete value'
             names = out.get('after_fault', [])
+            gone = [n for n in names if n.endswith('_error') and n not in out.get('after_look', names)]
+            if gone:
+                return (f'{where0}: the work directory set aside after the failure ({gone}) was removed by a later look at the task '
+                        f'(has_data / value of a new task object): {out.get("after_look")}')
             if case['kind'] == 'dir':
                 if not any(n.endswith('_error') for n in names) or any(n.endswith('_tmp') for n in names):
                     return f'{where0}: the work directory of the failed run was not set aside ({names})'
